@@ -90,6 +90,7 @@ func VerifC20_Tamper() {
 	k3 := c20Parse(blob)
 	cj := &k3.Crypto
 	target := vs.Choice("target", 8)
+	opts := vs.Param("numopts") // how many alternative values per numeric parameter (1: quick, 2: all)
 	differ := func(name string, old []byte) string {
 		nb := vs.BytesN(name, len(old))
 		vs.Assume(!c20Eq(nb, old))
@@ -106,13 +107,13 @@ func VerifC20_Tamper() {
 		salt, _ := cj.KDFParams["salt"].(string)
 		cj.KDFParams["salt"] = differ("salt2", c20Unhex(salt))
 	case 4:
-		cj.KDFParams["n"] = c20TamperN[vs.Choice("n2", len(c20TamperN))]
+		cj.KDFParams["n"] = c20TamperN[vs.Choice("n2", min(len(c20TamperN), 2*opts))]
 	case 5:
-		cj.KDFParams["r"] = []float64{1, 16}[vs.Choice("r2", 2)]
+		cj.KDFParams["r"] = []float64{1, 16}[vs.Choice("r2", min(2, opts))]
 	case 6:
-		cj.KDFParams["p"] = []float64{2, 6}[vs.Choice("p2", 2)]
+		cj.KDFParams["p"] = []float64{2, 6}[vs.Choice("p2", min(2, opts))]
 	default:
-		cj.KDFParams["dklen"] = []float64{64, 16, 33}[vs.Choice("dklen2", 3)]
+		cj.KDFParams["dklen"] = []float64{64, 16, 33}[vs.Choice("dklen2", min(3, 1+opts))]
 	}
 	file := c20Store(c20FileOf(k3))
 	var got *Key
